@@ -13,6 +13,13 @@ fn cfg() -> Config {
     Config { encase: true, repr: Repr::Glam, ..Config::default() }
 }
 
+/// "With encase derives and the glam representation" also holds when the other derive switches are on as well:
+/// the same universe is run with the bytemuck switches added (modules the bytemuck derives reject at compile
+/// time - padding, layout assertions - leave the universe; C01/C05 judge those).
+fn cfgs() -> [Config; 2] {
+    [cfg(), Config { bytemuck_host: true, bytemuck_vertex: true, ..cfg() }]
+}
+
 fn has_rt(p: &StructProg) -> bool {
     Ty::Struct(p.root.clone()).has_rt_array(&p.env)
 }
@@ -73,9 +80,13 @@ pub fn run(tier: &str) -> i32 {
         .collect();
     let stride = if thorough { 1 } else { (progs.len() / 150).max(1) };
     let mut cases = vec![];
-    let mut index: BTreeMap<String, usize> = BTreeMap::new();
-    let texts = par_map(&progs, |p| generate(&p.src, &cfg()));
-    for (i, (p, t)) in progs.iter().zip(texts.iter()).enumerate() {
+    let mut index: BTreeMap<String, (usize, usize)> = BTreeMap::new();
+    let cfgs = cfgs();
+    let items: Vec<(usize, usize)> = (0..progs.len()).flat_map(|i| (0..cfgs.len()).map(move |c| (i, c))).collect();
+    let texts = par_map(&items, |(i, c)| generate(&progs[*i].src, &cfgs[*c]));
+    for ((i, ci), t) in items.iter().zip(texts.iter()) {
+        let (i, ci) = (*i, *ci);
+        let p = &progs[i];
         rep.states += 1;
         rep.transitions += p.env.get(&p.root).members.len() as u64;
         let forced = p.key.starts_with("attr|") || p.key.starts_with("rt") || (p.key.starts_with("io-host|") && i % 4 == 0) || p.key.contains("vec3<f32>|f32") || p.key.contains("mat3x3<f32>") && p.key.starts_with("s1");
@@ -85,21 +96,26 @@ pub fn run(tier: &str) -> i32 {
         rep.evaluations += 1;
         match t {
             Outcome::Ok(text) => {
-                let name = format!("c_{i:05}");
-                index.insert(name.clone(), i);
+                let name = format!("c_{i:05}_{ci}");
+                index.insert(name.clone(), (i, ci));
                 cases.push(ProbeCase { name, generated: text.clone(), probe_body: probe_for(p, uniform_legal(p)).unwrap(), probe_items: String::new(), files: vec![] });
             }
+            Outcome::Panic(m) if ci == 1 && m.contains("Runtime-sized array") => rep.filtered("documented panic: runtime-sized array with bytemuck"),
             other => rep.filtered(&format!("generator not Ok: {}", other.class())),
         }
     }
     let results = probe::run_batch("C10", &cases, true);
     for cr in &results {
-        let i = index[&cr.name];
+        let (i, ci) = index[&cr.name];
         let p = &progs[i];
-        let case = p.key.clone();
-        let detail = |obs: String| json!({"wgsl": p.src, "config": cfg().key(), "observed": obs});
+        let case = if ci == 0 { p.key.clone() } else { format!("{}|+bytemuck", p.key) };
+        let detail = |obs: String| json!({"wgsl": p.src, "config": cfgs[ci].key(), "observed": obs});
         match &cr.check {
             Verdict::Accepted => {}
+            Verdict::Rejected(_) if ci == 1 => {
+                rep.filtered("with the bytemuck switches added the module is rejected by rustc (C01/C05's domain)");
+                continue;
+            }
             Verdict::Rejected(e) => {
                 rep.violation(case, format!("module does not compile with encase+glam: {} {}", e[0].0, e[0].1.chars().take(100).collect::<String>()), detail(format!("{e:?}")));
                 continue;
@@ -123,7 +139,7 @@ pub fn run(tier: &str) -> i32 {
             let mut comps = vec![];
             let mut next = 0;
             reference_image(&Ty::Struct(p.root.clone()), &p.env, 0, &mut next, n, &mut comps);
-            let sub = format!("{}|{buffer}|rt={n}", p.key);
+            let sub = format!("{case}|{buffer}|rt={n}");
             let mut bad = None;
             for (off, width, v, kind) in &comps {
                 let want = sentinel_bytes(*v, *width, *kind);
